@@ -19,6 +19,7 @@ import warnings
 import numpy as np
 
 from harness import coqterm as ct
+from harness.acc_common import cell_from_json  # noqa: E402,F401
 from harness.acc_common import (ACC_LAYOUTS, AccGen, CellPrinter, cbool, clist, copt, cres, cz, czlist,
                                 mid, month_aligned, parse_nat_list, tri_from_json, tri_to_json)
 from harness.common import COQ, REPO, parse_coq_eval
@@ -62,6 +63,7 @@ def observe(t):
     get = (lambda: t.child) if live else (lambda: fresh(t))
     o = {}
     o["cells"] = list(t.cells)
+    o["live"] = t.child if live else None
     o["aligned"] = month_aligned(t.cells)
     for name in ACCESSOR_NAMES:
         o[name] = attempt(lambda: getattr(get(), name))
@@ -91,6 +93,11 @@ class Derived:
         self.derivation = derivation
         self.child = child
         self.cells = list(child.cells)
+        if derivation.get("op") in ("retime", "reclass"):
+            # judged against the SAME triangle built from plain dates: model, oracles and the fresh
+            # reference use the parent's cells, the live object is the one built from datetimes
+            self.cells = [cell_from_json(j) for j in parent_cells_json]
+            self.cells = list(__import__("bermuda").Triangle(self.cells).cells)
 
     def __len__(self):
         return len(self.cells)
@@ -107,11 +114,50 @@ def warm(t):
     attempt(lambda: t.right_edge)
 
 
+class MyDateTime(datetime.datetime):
+    """a user-defined datetime subclass (like pandas.Timestamp, it is a datetime.date)"""
+
+
+def retime(parent, d):
+    """The same triangle built from datetime.datetime / pandas.Timestamp / a datetime subclass carrying a
+    time of day (one per slice, cyclically from d['times']).  Cell must store plain calendar dates."""
+    from bermuda import Triangle
+
+    if d["kind"] == "timestamp":
+        import pandas as pd
+
+        mk = lambda x, h, m: pd.Timestamp(year=x.year, month=x.month, day=x.day, hour=h, minute=m)  # noqa: E731
+    elif d["kind"] == "subclass":
+        mk = lambda x, h, m: MyDateTime(x.year, x.month, x.day, h, m)  # noqa: E731
+    else:
+        mk = lambda x, h, m: datetime.datetime(x.year, x.month, x.day, h, m)  # noqa: E731
+    metas = list(parent.metadata)
+    cells = []
+    for c in parent.cells:
+        i = next(k for k, m in enumerate(metas) if m == c.metadata)
+        h, mi = d["times"][i % len(d["times"])]
+        kw = {}
+        if type(c).__name__ == "IncrementalCell":  # F28: prev_evaluation_date is normalised like the others
+            kw["prev_evaluation_date"] = mk(c.prev_evaluation_date, h, mi)
+        cells.append(type(c)(period_start=mk(c.period_start, h, mi), period_end=mk(c.period_end, h, mi),
+                             evaluation_date=mk(c.evaluation_date, h, mi), values=c.values, metadata=c.metadata, **kw))
+    return Triangle(cells)
+
+
 def derive(parent, d):
     """Apply derivation d (JSON-able dict) to an already warmed parent."""
     from bermuda import Triangle
 
     op = d["op"]
+    if op == "retime":
+        return retime(parent, d)
+    if op == "reclass":  # H: equal-but-differently-typed receiver: Cell <-> CumulativeCell
+        from bermuda import Cell, CumulativeCell
+
+        swap = {"Cell": CumulativeCell, "CumulativeCell": Cell}
+        return Triangle([swap[type(c).__name__](period_start=c.period_start, period_end=c.period_end,
+                                                evaluation_date=c.evaluation_date, values=c.values, metadata=c.metadata)
+                         for c in parent.cells])
     dt = lambda k: D.fromisoformat(d[k]) if d.get(k) else None  # noqa: E731
     if op == "filter_period_days_lt":
         return parent.filter(lambda c: (c.period_end - c.period_start).days < d["n"])
@@ -179,7 +225,7 @@ def canon_out(key, kv):
         if isinstance(x, dict):
             return ("dict",) + tuple((a, c(b)) for a, b in x.items())
         if isinstance(x, datetime.date):
-            return ("date", x.isoformat())
+            return ("date", type(x).__name__, x.isoformat())
         return ct.canon_value(x)
 
     return ("ok", c(v))
@@ -260,6 +306,25 @@ def build_derived(ctx, n):
                       {"op": "chain", "first": {"op": "clip", "max_period": D(y, 9, 30).isoformat()},
                        "second": {"op": "clip", "min_period": D(y, 4, 1).isoformat()}}]:
                 out.append(("derived:" + d["op"] + "/quarterly+annual", make_derived(t.cells, d)))
+        # the same triangle built from datetime.datetime / pandas.Timestamp / a datetime subclass with a
+        # time of day that differs per slice: every accessor must agree with the plain-date triangle
+        kinds = ["timestamp", "datetime", "subclass"]
+        time_sets = [[[0, 0], [17, 30]], [[9, 15], [17, 30], [23, 59]], [[17, 30]], [[6, 0], [0, 0]]]
+        rl = ["regular", "semi_gap", "irregular", "offgrid", "unequal_days", "adjacent_days", "semi", "near_month_end"]
+        k = 0
+        while k < max(48, n // 10):
+            try:
+                t, info = ag.triangle(layout=rl[k % len(rl)], n_slices=[2, 1, 3, 2][k % 4])
+            except Exception:  # noqa: BLE001
+                continue
+            d = {"op": "retime", "kind": kinds[k % 3], "times": time_sets[(k // 3) % len(time_sets)]}
+            out.append((f"derived:retime-{d['kind']}/{info['layout']}/{info['n_slices']}sl", make_derived(t.cells, d)))
+            if k % 6 == 1:  # incremental cells, prev_evaluation_date datetime-like too
+                ti, ii = ag.g.triangle(layout=["regular", "ragged", "holey"][k % 3], basis="inc", n_slices=2)
+                out.append((f"derived:retime-{d['kind']}/inc-{ii['layout']}/2sl", make_derived(ti.cells, d)))
+            if k % 4 == 0:
+                out.append((f"derived:reclass/{info['layout']}/{info['n_slices']}sl", make_derived(t.cells, {"op": "reclass"})))
+            k += 1
         layouts = ["erratic", "overlap1", "regular", "semi_gap", "irregular", "offgrid", "daily", "unequal_days", "gen",
                    "same_month_evals", "adjacent_days"]
         while len(out) < n:
@@ -405,6 +470,19 @@ def oracles(o):
         return v
 
     empty = len(cells) == 0
+    # every date handed out is a plain calendar date (no time of day, no datetime subclass)
+    def plain(x):
+        return type(x) is datetime.date
+
+    for key, flat in [("periods", lambda v: [d for p in v for d in p]), ("evaluation_dates", lambda v: list(v)),
+                      ("evaluation_date", lambda v: [v]), ("experience_gaps", lambda v: [d for p in v for d in p])]:
+        kk, vv = o[key]
+        if kk == "ok" and not all(plain(d) for d in flat(vv)):
+            bad.append((key, f"returns {sorted({type(d).__name__ for d in flat(vv)})} objects, not plain datetime.date: {vv!r}"[:300]))
+    live_cells = getattr(o.get("live"), "cells", None) or cells
+    if not all(plain(d) for c in live_cells
+               for d in (c.period_start, c.period_end, c.evaluation_date, getattr(c, "prev_evaluation_date", c.period_end))):
+        bad.append(("periods", "a cell stores a period / evaluation date that is not a plain datetime.date"))
     # sorted distinct images
     per, evs = [], []
     for c in cells:
@@ -641,6 +719,122 @@ def directed():
     return out
 
 
+def hardening():
+    """Directed stream for the input families of notes/HARDENING.md (runs on every quick run)."""
+    from bermuda import Cell, CumulativeCell, Metadata, Triangle
+
+    def mk(ps, pe, ev, vals=None, m=None, cls=CumulativeCell):
+        return cls(period_start=ps, period_end=pe, evaluation_date=ev,
+                   values=vals if vals is not None else {"paid_loss": 1}, metadata=m or Metadata())
+
+    Q = [(D(2020, 1, 1), D(2020, 3, 31)), (D(2020, 4, 1), D(2020, 6, 30)), (D(2020, 7, 1), D(2020, 9, 30))]
+    E3 = [D(2020, 9, 30), D(2020, 12, 31)]
+
+    def tri(metas, periods=Q, evs=E3, vals=None):
+        return Triangle([mk(a, b, e, dict(vals) if vals else None, m) for m in metas for a, b in periods for e in evs if e >= a])
+
+    out = []
+    # A: equal metadata spelled differently inside ONE slice (loss_details order, limit 1000 vs 1000.0, 7 vs 7.0)
+    a1 = Metadata(per_occurrence_limit=1000, details={"a": 1, "t": 7}, loss_details={"x": "p", "y": 2})
+    a2 = Metadata(per_occurrence_limit=1000.0, details={"t": 7.0, "a": True}, loss_details={"y": 2.0, "x": "p"})
+    out.append(("A:one-slice-respelled", Triangle([mk(a, b, e, None, a1 if i % 2 else a2)
+                                                    for i, (a, b) in enumerate(Q) for e in E3])))
+    out.append(("A:respelled+other-slice", Triangle([mk(a, b, e, None, m) for m in (a1, a2, Metadata(country="US"))
+                                                     for a, b in Q[:2] for e in E3[:1 if m is a2 else 2]])))
+    # B: distinct metadata that flatten alike
+    for nm, ms in [
+        ("B:details-vs-loss_details", [Metadata(details={"k": "v"}), Metadata(loss_details={"k": "v"})]),
+        ("B:detail-named-like-attribute", [Metadata(details={"currency": "USD"}), Metadata(currency="USD")]),
+        ("B:only-loss_details-differ", [Metadata(country="US", loss_details={"c": "a"}), Metadata(country="US", loss_details={"c": "b"}),
+                                        Metadata(country="US")]),
+        ("B:none-vs-empty-string", [Metadata(country=None), Metadata(country="")]),
+        ("B:missing-vs-empty-detail", [Metadata(details={}), Metadata(details={"x": ""})]),
+        ("B:missing-vs-None-detail", [Metadata(details={}), Metadata(details={"x": None}), Metadata(risk_basis=None)]),
+    ]:
+        out.append((nm, tri(ms)))
+    # C: calendar corners far from the generator's years
+    for y in (2240, 2400, 1904, 2100):
+        ps_ = [(D(y, 1, 1), D(y, 1, 31)), (D(y, 2, 1), D(y, 3, 1) - ONE), (D(y, 3, 1), D(y, 3, 31))]
+        out.append((f"C:feb-{y}", Triangle([mk(a, b, e) for a, b in ps_ for e in (b, D(y, 3, 31), D(y, 4, 30), D(y, 2, 28)) if e >= b])))
+    # E: falsy but valid values everywhere
+    out.append(("E:falsy-limits", tri([Metadata(per_occurrence_limit=0), Metadata(per_occurrence_limit=None), Metadata(per_occurrence_limit=0.5)])))
+    out.append(("E:limit-0-vs-0.0-one-slice", Triangle([mk(*Q[0], E3[0], None, Metadata(per_occurrence_limit=0)),
+                                                         mk(*Q[0], E3[1], None, Metadata(per_occurrence_limit=0.0)),
+                                                         mk(*Q[1], E3[1], None, Metadata(per_occurrence_limit=0, country=""))])))
+    out.append(("E:falsy-details", tri([Metadata(details={"k": 0}), Metadata(details={"k": 1}), Metadata(details={"k": False, "s": ""})])))
+    out.append(("E:falsy-values", Triangle([mk(*Q[0], E3[0], {"paid_loss": 0, "reported_loss": 0.0, "earned_premium": None}),
+                                            mk(*Q[0], E3[1], {}), mk(*Q[1], E3[1], {"paid_loss": None})])))
+    # F: degenerate shapes
+    out.append(("F:field-only-later", Triangle([mk(*Q[0], E3[0], {"paid_loss": 1}), mk(*Q[0], E3[1], {"paid_loss": 2, "late": 3}),
+                                                mk(*Q[1], E3[1], {"late": None})])))
+    out.append(("F:all-None-field", Triangle([mk(a, b, e, {"paid_loss": None, "x": 1}) for a, b in Q[:2] for e in E3])))
+    out.append(("F:samples-then-scalars", Triangle([mk(*Q[0], E3[0], {"a": np.array([1, 2, 3])}), mk(*Q[0], E3[1], {"a": 5}),
+                                                    mk(*Q[1], E3[1], {"a": 7.5, "b": np.array([1.0, 2.0, 3.0])})])))
+    out.append(("F:plain-Cell-class", Triangle([mk(a, b, e, None, None, Cell) for a, b in Q for e in E3])))
+    # G: NumPy corner types among the values (num_samples / fields / counts read them)
+    g = {"i64big": np.int64(2**53 + 1), "f64": np.float64(2.5), "a_f32": np.array([1, 2], dtype=np.float32),
+         "a_i32": np.array([1, 2], dtype=np.int32), "a_i16": np.array([3, 4], dtype=np.int16), "a_bool": np.array([True, False]),
+         "zero_d": np.array(5.0), "size1": np.array([7]), "strided": np.arange(8, dtype=np.int64)[::4],
+         "fortran2d": np.asfortranarray(np.ones((1, 2)))}
+    out.append(("G:numpy-corners", Triangle([mk(*Q[0], E3[0], dict(g)), mk(*Q[0], E3[1], {"a_f32": np.array([5, 6], dtype=np.float32)})])))
+    out.append(("G:size1-vs-scalar", Triangle([mk(*Q[0], E3[0], {"a": np.array([7])}), mk(*Q[0], E3[1], {"a": 7}),
+                                               mk(*Q[1], E3[1], {"a": np.array(7)})])))
+    # I: restated cells (same coordinates twice, different values)
+    out.append(("I:restated", Triangle([mk(*Q[0], E3[0], {"paid_loss": 1}), mk(*Q[0], E3[0], {"paid_loss": 2, "x": 1}),
+                                        mk(*Q[1], E3[1], {"paid_loss": 3})])))
+    # J: period layouts
+    semi = [(D(2021, 1, 1), D(2021, 1, 15)), (D(2021, 1, 16), D(2021, 1, 31)), (D(2021, 2, 1), D(2021, 2, 15)), (D(2021, 2, 16), D(2021, 2, 28))]
+    out.append(("J:semi-monthly", Triangle([mk(a, b, e) for a, b in semi for e in (D(2021, 2, 28), D(2021, 3, 15), D(2021, 3, 31))])))
+    out.append(("J:shared-start", Triangle([mk(D(2020, 1, 1), D(2020, 6, 30), D(2020, 6, 30)), mk(D(2020, 1, 1), D(2020, 3, 31), D(2020, 9, 30)),
+                                            mk(D(2020, 1, 1), D(2020, 12, 31), D(2020, 12, 31))])))
+    out.append(("J:shared-end", Triangle([mk(D(2020, 1, 1), D(2020, 6, 30), D(2020, 9, 30)), mk(D(2020, 4, 1), D(2020, 6, 30), D(2020, 6, 30))])))
+    out.append(("J:gaps-none-adjacent", Triangle([mk(D(2020, 1, 1), D(2020, 1, 31), D(2020, 12, 31)), mk(D(2020, 3, 1), D(2020, 3, 31), D(2020, 12, 31)),
+                                                  mk(D(2020, 7, 1), D(2020, 7, 31), D(2020, 12, 31))])))
+    out.append(("J:slice-ragged", Triangle([mk(a, b, e, None, m) for m, n in ((Metadata(country="US"), 3), (Metadata(country="DE"), 1))
+                                            for a, b in Q[:n] for e in E3[: n]])))
+    return out
+
+
+UNIT_SPELLINGS = {"month": ["months", "Month", " MONTHS ", "dev_months"], "day": ["days", "Day", " DAYS "]}
+
+
+def unit_spelling_failures(t):
+    """K / L: every documented spelling of a unit gives the same answer, `timedelta` is the day unit as a
+    timedelta, and an unknown unit is refused with ValueError wherever the unit is looked at."""
+    bad = []
+    ref = {u: (attempt(lambda: fresh(t).dev_lags(u)), attempt(lambda: fresh(t).is_semi_regular(u)),
+               attempt(lambda: fresh(t).is_regular(u))) for u in ("month", "day")}
+
+    def same(a, b):
+        return a[0] == b[0] and (a[1] == b[1] if a[0] == "ok" else type(a[1]) is type(b[1]))
+
+    for u, alts in UNIT_SPELLINGS.items():
+        for alt in alts:
+            got = (attempt(lambda: fresh(t).dev_lags(alt)), attempt(lambda: fresh(t).is_semi_regular(alt)),
+                   attempt(lambda: fresh(t).is_regular(alt)), attempt(lambda: fresh(t).is_regular(dev_lag_unit=alt)))
+            for nm, g, r in zip(("dev_lags", "is_semi_regular", "is_regular", "is_regular(dev_lag_unit=)"), got, ref[u] + (ref[u][2],)):
+                if not same(g, r):
+                    bad.append((nm + f"({u})", f"unit spelled {alt!r} gives {g[1]!r}, {u!r} gives {r[1]!r}"))
+    td = attempt(lambda: fresh(t).dev_lags("timedelta"))
+    if ref["day"][0][0] == "ok" and td != ("ok", [datetime.timedelta(days=x) for x in ref["day"][0][1]]):
+        bad.append(("dev_lags(day)", f"unit 'timedelta' gives {td[1]!r}, days are {ref['day'][0][1]!r}"))
+    for nm, r, g in (("is_semi_regular", ref["day"][1], attempt(lambda: fresh(t).is_semi_regular("timedelta"))),
+                     ("is_regular", ref["day"][2], attempt(lambda: fresh(t).is_regular("timedelta")))):
+        if not same(g, r):
+            bad.append((nm + "(day)", f"unit 'timedelta' gives {g[1]!r}, 'day' gives {r[1]!r}"))
+    if len(t.cells):
+        g = attempt(lambda: fresh(t).dev_lags("fortnight"))
+        if not (g[0] == "err" and isinstance(g[1], ValueError)):
+            bad.append(("dev_lags(day)", f"unknown unit 'fortnight' is not refused with ValueError: {g[1]!r}"))
+        if ref["day"][1] == ("ok", True) or attempt(lambda: fresh(t).is_disjoint) == ("ok", True):
+            for nm, f in (("is_semi_regular", lambda: fresh(t).is_semi_regular("fortnight")),
+                          ("is_regular", lambda: fresh(t).is_regular("fortnight"))):
+                g = attempt(f)
+                if not (g[0] == "err" and isinstance(g[1], ValueError)):
+                    bad.append((nm + "(day)", f"unknown unit 'fortnight' is not refused with ValueError: {g[1]!r}"))
+    return bad
+
+
 # ------------------------------------------------------------------ run
 HEADER = ct.COQ_HEADER + "From Gen Require Import C13_Tie.\n"
 
@@ -651,6 +845,10 @@ def build_cases(ctx, n_cases):
     cases = []  # (label, triangle)
     for label, t in directed():
         cases.append(("directed:" + label, t))
+    with warnings.catch_warnings():
+        warnings.simplefilter("ignore")
+        for label, t in hardening():
+            cases.append(("hardening:" + label, t))
     while len(cases) < n_cases:
         layout = ACC_LAYOUTS[len(cases) % len(ACC_LAYOUTS)] if rng.random() < 0.8 else None
         with warnings.catch_warnings():
@@ -693,6 +891,12 @@ def run_cases(ctx, cases, tag="cases"):
         if isinstance(t, Derived):
             fails = fails + fresh_differences(t, o)
             ctx.hist("derived-op:" + t.derivation["op"])
+            o2 = observe(t)  # H: the same accessors read a second time on the same object
+            for key in OBS_KEYS:
+                if canon_out(key, o[key]) != canon_out(key, o2[key]):
+                    fails.append((key, f"second read on the same object gives {o2[key][1]!r}, first read gave {o[key][1]!r}"))
+        elif label.startswith(("directed:", "hardening:")) or i % 12 == 0:
+            fails = fails + unit_spelling_failures(t)
         for acc, msg in fails[:3]:
             oracle_fail.append((i, label, t, f"{acc}: {msg}"))
         if pr is None:
@@ -770,7 +974,9 @@ def run(ctx):
         "float / int64- and float64-sample values incl. inconsistent sample sizes; plus the directed boundary "
         "cases of the property text; plus a DERIVED stream: every accessor and taxonomy predicate of a parent (and of "
         "any second operand) is read first, then children are produced by filter / clip(min/max eval, min/max period) / "
-        "select / slices / t[a:b] / right_edge / + / two chained clips (incl. quarterly cells + an overlapping annual "
+        "select / slices / t[a:b] / right_edge / + / two chained clips / the same triangle REBUILT from datetime.datetime, "
+        "pandas.Timestamp or a datetime subclass with a per-slice time of day (every accessor must agree with the "
+        "plain-date triangle and hand out plain datetime.date objects) (incl. quarterly cells + an overlapping annual "
         "period filtered to disjoint, and disjoint + overlapping composed back) and observed LIVE on the returned "
         "object, compared with the model on the child's cells and strictly with a fresh Triangle(list(child.cells)). "
         "Every case: all accessors run on the real Triangle; Coq compares them with "
